@@ -468,6 +468,11 @@ def main(argv=None):
     import importlib
 
     name = args.check.lower()
+    if name.startswith("selftest"):
+        from checks import selftest
+
+        mods = [o for o in args.opt] or ["checks.c01"]
+        return selftest.main([",".join(mods), str(int(args.budget or 96))])
     mod = importlib.import_module(f"checks.{name}")
     opts = {}
     for o in args.opt:
